@@ -120,17 +120,25 @@ class PythonTranslator(ASTTranslator):
     def postLambda(translator, node):
         return 'lambda %s: %s' % (node.args.src, node.body.src)
     def postarguments(translator, node):
+        posonlyargs = getattr(node, 'posonlyargs', None) or []
+        args = posonlyargs + node.args
         if node.defaults:
-            nodef_args = node.args[:-len(node.defaults)]
-            def_args = node.args[-len(node.defaults):]
+            nodef_args = args[:-len(node.defaults)]
+            def_args = args[-len(node.defaults):]
         else:
-            nodef_args = node.args
+            nodef_args = args
             def_args = []
 
         result = [arg.arg for arg in nodef_args]
         result.extend('%s=%s' % (arg.arg, default.src) for arg, default in zip(def_args, node.defaults))
+        if posonlyargs:
+            result.insert(len(posonlyargs), '/')
         if node.vararg:
             result.append('*%s' % node.vararg.arg)
+        elif node.kwonlyargs:
+            result.append('*')
+        for arg, default in zip(node.kwonlyargs, node.kw_defaults):
+            result.append(arg.arg if default is None else '%s=%s' % (arg.arg, default.src))
         if node.kwarg:
             result.append('**%s' % node.kwarg.arg)
         return ', '.join(result)
